@@ -37,6 +37,21 @@ func vfC15GenOp(rt *rapid.T, w *vfC15World, payload int) vfC15Op {
 	return op
 }
 
+// vfC15GenRaceOp: operations for the two racing nodes. Unlike vfC15GenOp it does not shy away from
+// "invalid" kinds (an Insert of an existing database is exactly what races with its Delete), and the
+// second node is drawn towards the databases the first node touches.
+func vfC15GenRaceOp(rt *rapid.T, w *vfC15World, payload int, near []int) vfC15Op {
+	db := rapid.IntRange(0, len(w.dbNames)-1).Draw(rt, "db")
+	if len(near) > 0 && rapid.IntRange(0, 3).Draw(rt, "sameDB") > 0 {
+		db = rapid.SampledFrom(near).Draw(rt, "nearDB")
+	}
+	op := vfC15Op{kind: rapid.SampledFrom([]int{vfC15Insert, vfC15Update, vfC15Delete}).Draw(rt, "kind"), db: db, payload: payload}
+	if op.kind != vfC15Delete {
+		op.set = rapid.IntRange(0, len(w.menu)-1).Draw(rt, "set")
+	}
+	return op
+}
+
 func vfC15FlushWorld(w *vfC15World, rec *kit.Rec, nontrivial bool, extra ...string) {
 	for sig, n := range w.excluded {
 		for ; n > 0; n-- {
@@ -171,19 +186,20 @@ type vfC15ActorRes struct {
 }
 
 type vfC15Actor struct {
-	id        int
-	node      *vfC15Node
-	prog      []vfC15ActorOp
-	res       []vfC15ActorRes
-	req       chan string
-	grant     chan struct{}
-	done      chan struct{}
-	cur       atomic.Int32
-	pending   string
-	fin       bool
-	last      string
-	lastFirst time.Time // when the first of a run of identical calls was granted (patient mode bookkeeping)
-	panicV    any
+	id           int
+	node         *vfC15Node
+	prog         []vfC15ActorOp
+	res          []vfC15ActorRes
+	req          chan string
+	grant        chan struct{}
+	done         chan struct{}
+	cur          atomic.Int32
+	pending      string
+	fin          bool
+	last         string
+	lastFirst    time.Time     // when the first of a run of identical calls was granted
+	fixedTimeout time.Duration // regress reproductions: keep this configRetryTimeout, do not adapt it
+	panicV       any
 }
 
 func (w *vfC15World) runActor(a *vfC15Actor) {
@@ -214,20 +230,25 @@ func (w *vfC15World) runActor(a *vfC15Actor) {
 	}
 }
 
-// vfC15PatientTimeout is the wait budget of a "patient" node. While the node it waits for is alive the
-// wait must not expire: the scheduler runs that node to the end of its operation before the next
-// poll, and if that took longer than vfC15PatientSlack of wall-clock (overloaded machine) the case is
-// dropped as inconclusive — the clock never contributes to a verdict. A wait for something that will
-// never come (e.g. a config deleted after the poller read the registry) runs its full length.
+// Wait budgets in the race family. A node that finds registry and config document out of step waits for
+// the change to complete (configRetryTimeout, 30 s in the product). That wait may expire only against a
+// node that will issue no further calls — one that died or has finished its program — never against a
+// live node that goes on (a node frozen for longer than the product's 30 s between two storage calls is
+// outside the property's quantifier). So: while the other node is alive and unfinished a wait gets
+// vfC15PatientTimeout and the scheduler runs that node to the end of its operation before the next
+// poll; if that took longer than vfC15PatientSlack of wall-clock (overloaded machine) the case is
+// dropped as inconclusive — the clock never contributes to a verdict. Once the other node is dead or
+// done, a new wait gets vfC15ExpiredTimeout.
 const (
 	vfC15PatientTimeout = 3 * time.Second
 	vfC15PatientSlack   = time.Second
+	vfC15ExpiredTimeout = time.Millisecond
 )
 
 // runRace starts the actors and grants their storage calls one at a time; choose picks among the two
-// actors when both are waiting. In patient mode an actor that repeats its previous read is polling for
-// the other node's change: that node is then run to the end of its current operation first.
-func (w *vfC15World) runRace(actors []*vfC15Actor, patient bool, choose func(ready []*vfC15Actor) *vfC15Actor) (sched []string, switches int, ok bool) {
+// actors when both are waiting. An actor that repeats its previous read is polling for the other
+// node's change: that node is then run to the end of its current operation first.
+func (w *vfC15World) runRace(actors []*vfC15Actor, choose func(ready []*vfC15Actor) *vfC15Actor) (sched []string, switches int, ok bool) {
 	wait := func(a *vfC15Actor) bool {
 		select {
 		case c := <-a.req:
@@ -250,6 +271,14 @@ func (w *vfC15World) runRace(actors []*vfC15Actor, patient bool, choose func(rea
 		if a.pending != a.last {
 			a.lastFirst = time.Now()
 		}
+		if a.fixedTimeout == 0 {
+			// a wait this actor starts now expires quickly only if the other node will not act again
+			if other := actors[1-a.id]; other.fin {
+				a.node.bc.configRetryTimeout = vfC15ExpiredTimeout
+			} else {
+				a.node.bc.configRetryTimeout = vfC15PatientTimeout
+			}
+		}
 		a.last = a.pending
 		a.grant <- struct{}{}
 		return wait(a)
@@ -268,7 +297,7 @@ func (w *vfC15World) runRace(actors []*vfC15Actor, patient bool, choose func(rea
 		pick := ready[0]
 		if len(ready) > 1 {
 			pick = choose(ready)
-			if patient && pick.pending == pick.last {
+			if pick.pending == pick.last {
 				other := actors[1-pick.id]
 				cur := other.cur.Load()
 				for !other.fin && other.cur.Load() == cur {
@@ -376,15 +405,13 @@ func vfC15Serial(pre []*vfC15Cfg, progs [][]vfC15RaceOp) map[string][]*vfC15Cfg 
 	return out
 }
 
-// Known findings of the race family (see findings.d/C15.json). While a signature is listed as open
-// the generator keeps the shape out of the domain; with the entry removed the shape is generated again
-// and fails.
+// Known-finding signatures of the race family (see known-findings.json). While a signature is listed
+// as open the shape is kept out of the asserted domain; otherwise it is generated and asserted.
 const (
-	// an in-flight create or delete of a live node is completed/rolled back by another node whose
-	// wait expired; the first node then finishes and acknowledges a change that is gone
-	vfC15SigOvertaken = "live-insert-or-delete-overtaken-after-wait-timeout"
-	// a create of database X racing any other change of X on another node
+	// a create of database X racing any other change of X on another node whose registry read is older
 	vfC15SigSameDBCreate = "create-racing-another-change-of-the-same-database"
+	// DeleteConfig's finalising step removes the registry entry of X although X was re-created meanwhile
+	vfC15SigDeleteFinalize = "delete-finalize-removes-recreated-database"
 )
 
 // TestVerif_C15_Race: two live nodes, every storage call a scheduling point.
@@ -411,34 +438,27 @@ func TestVerif_C15_Race(t *testing.T) {
 			for i := range pre {
 				pre[i], _ = w.model[i].definite()
 			}
-			// patient: a node that finds registry and config out of step waits for the other (live)
-			// node to finish, as the code does within its retry timeout. impatient: that wait expires
-			// at once, i.e. the other node is arbitrarily slow or dies.
-			patient := rapid.Bool().Draw(rt, "patient")
-			restrict := !patient && kit.Known("C15", vfC15SigOvertaken)
+			// crash mode: operations of the race may carry a death (the node stops at a generated storage
+			// call); otherwise both nodes stay alive. Waits expire only against dead or finished nodes.
+			crash := rapid.Bool().Draw(rt, "crash")
+			var near []int
 			actors := make([]*vfC15Actor, 2)
 			for i := range actors {
 				a := &vfC15Actor{id: i, req: make(chan string), grant: make(chan struct{}), done: make(chan struct{})}
 				a.node = w.NewNode()
-				if patient {
-					a.node.bc.configRetryTimeout = vfC15PatientTimeout
-				} else {
-					a.node.bc.configRetryTimeout = 1 // nanosecond: a version mismatch is acted upon at once
-				}
+				a.node.bc.configRetryTimeout = vfC15PatientTimeout
 				n := rapid.IntRange(1, 2).Draw(rt, "progLen")
 				for k := 0; k < n; k++ {
 					aop := vfC15ActorOp{dieAfter: -1}
 					if rapid.IntRange(0, 4).Draw(rt, "isLoad") == 0 {
 						aop.load = true
 					} else {
-						aop.op = vfC15GenOp(rt, w, 100*(i+1)+10*k)
-						if restrict && aop.op.kind != vfC15Update {
-							// keep the shape in the domain only while it is not a listed finding
-							aop.op.kind = vfC15Update
-							rec.Excluded(vfC15SigOvertaken)
+						aop.op = vfC15GenRaceOp(rt, w, 100*(i+1)+10*k, near)
+						if i == 0 {
+							near = append(near, aop.op.db)
 						}
 					}
-					if !patient && rapid.IntRange(0, 3).Draw(rt, "dies") == 0 {
+					if crash && rapid.IntRange(0, 1).Draw(rt, "dies") == 0 {
 						aop.dieAfter = rapid.IntRange(0, 3).Draw(rt, "dieAfter")
 					}
 					a.prog = append(a.prog, aop)
@@ -470,6 +490,24 @@ func TestVerif_C15_Race(t *testing.T) {
 					}
 				}
 			}
+			if kit.Known("C15", vfC15SigDeleteFinalize) {
+				// keep "Delete X on one node, Insert X on the other" out of the asserted domain while listed
+				for k := range actors[1].prog {
+					p := &actors[1].prog[k]
+					if p.load || (p.op.kind != vfC15Insert && p.op.kind != vfC15Delete) {
+						continue
+					}
+					want := vfC15Insert + vfC15Delete - p.op.kind
+					for _, q := range actors[0].prog {
+						if !q.load && q.op.db == p.op.db && q.op.kind == want {
+							p.load = true
+							actors[1].res[k].aop = *p
+							rec.Excluded(vfC15SigDeleteFinalize)
+							break
+						}
+					}
+				}
+			}
 			progText := func(a *vfC15Actor) string {
 				parts := make([]string, len(a.prog))
 				for k, p := range a.prog {
@@ -477,10 +515,21 @@ func TestVerif_C15_Race(t *testing.T) {
 				}
 				return fmt.Sprintf("n%d:[%s]", a.node.id, strings.Join(parts, ","))
 			}
-			w.logf("race(patient=%v) %s %s", patient, progText(actors[0]), progText(actors[1]))
+			w.logf("race(crash=%v) %s %s", crash, progText(actors[0]), progText(actors[1]))
 
-			sched, switches, ok := w.runRace(actors, patient, func(ready []*vfC15Actor) *vfC15Actor {
-				return ready[rapid.IntRange(0, 1).Draw(rt, "sched")]
+			// scheduling style: every call an independent choice, or bursts (a node issues 1-6 calls in a row)
+			bursts := rapid.Bool().Draw(rt, "bursts")
+			burstOf, burstLeft := 0, 0
+			sched, switches, ok := w.runRace(actors, func(ready []*vfC15Actor) *vfC15Actor {
+				if !bursts {
+					return ready[rapid.IntRange(0, 1).Draw(rt, "sched")]
+				}
+				if burstLeft == 0 {
+					burstOf = rapid.IntRange(0, 1).Draw(rt, "burstOf")
+					burstLeft = rapid.IntRange(1, 6).Draw(rt, "burstLen")
+				}
+				burstLeft--
+				return ready[burstOf]
 			})
 			if !ok {
 				rec.Inconclusive()
@@ -642,7 +691,7 @@ func TestVerif_C15_Race(t *testing.T) {
 			case el > 100*time.Millisecond:
 				bucket = "0.1-1s"
 			}
-			vfC15FlushWorld(w, rec, switches >= 2, fmt.Sprintf("patient=%v", patient), fmt.Sprintf("switches=%d", min(switches, 6)), fmt.Sprintf("wall(patient=%v)%s", patient, bucket))
+			vfC15FlushWorld(w, rec, switches >= 2, fmt.Sprintf("crash_mode=%v", crash), fmt.Sprintf("switches=%d", min(switches, 6)), fmt.Sprintf("wall(crash_mode=%v)%s", crash, bucket))
 		})
 	})
 }
@@ -654,6 +703,7 @@ func vfC15NewActor(w *vfC15World, id int, timeout time.Duration, prog ...vfC15Ac
 	a := &vfC15Actor{id: id, req: make(chan string), grant: make(chan struct{}), done: make(chan struct{})}
 	a.node = w.NewNode()
 	a.node.bc.configRetryTimeout = timeout
+	a.fixedTimeout = timeout
 	a.prog = prog
 	a.res = make([]vfC15ActorRes, len(prog))
 	for k := range a.res {
@@ -691,9 +741,7 @@ func TestVerif_C15_Regress(t *testing.T) {
 		r3 := w.exec(n2, vfC15Op{kind: vfC15Insert, db: 1, set: 0, payload: 3})
 		still := r1.outcome == vfC15Ack && lerr == nil && seen["db0"] != nil && strings.Join(seen["db0"].colls, ",") == "s1.c2" && r3.outcome == vfC15Rejected
 		rec.Case("Insert(db0,{c1}); Update(db0,{c2}) node dies after 2 writes; Load; Insert(db1,{c1})", true, fmt.Sprintf("reproduces=%v", still))
-		if still && kit.Known("C15", vfC15SigStalePrev) {
-			kit.KnownFinding("C15", vfC15SigStalePrev, fmt.Sprintf("collection released by an interrupted update stays blocked: Insert(db1,{c1}) = %v", r3.err))
-		}
+		vfC15RegressReport(vfC15SigStalePrev, still, fmt.Sprintf("collection released by an interrupted update stays blocked: Insert(db1,{c1}) = %v", r3.err))
 	}()
 
 	// 1b. interrupted delete: its marker claims the default collection
@@ -714,8 +762,13 @@ func TestVerif_C15_Regress(t *testing.T) {
 		r3 := w.exec(n2, vfC15Op{kind: vfC15Insert, db: 0, set: 5, payload: 3})
 		still := r1.outcome == vfC15Ack && lerr == nil && seen["db1"] == nil && r3.outcome == vfC15Rejected
 		rec.Case("Insert(db1,{c1}); Delete(db1) node dies after 1 write; Load; Insert(db0,{_default})", true, fmt.Sprintf("reproduces=%v", still))
-		if still && kit.Known("C15", vfC15SigDeleteMarker) {
-			kit.KnownFinding("C15", vfC15SigDeleteMarker, fmt.Sprintf("default collection blocked by the marker of an interrupted delete of another database: Insert(db0,{_default}) = %v", r3.err))
+		sig := vfC15SigDeleteMarkerPrev
+		if kit.Known("C15", vfC15SigDeleteMarker) {
+			sig = vfC15SigDeleteMarker
+		}
+		vfC15RegressReport(sig, still, fmt.Sprintf("default collection blocked by the registry entry of an interrupted delete of another database: Insert(db0,{_default}) = %v", r3.err))
+		if !still {
+			kit.Note("C15", "regress: %s no longer fails", vfC15SigDeleteMarker)
 		}
 	}()
 
@@ -729,7 +782,7 @@ func TestVerif_C15_Regress(t *testing.T) {
 		a := vfC15NewActor(w, 0, time.Millisecond, vfC15ActorOp{op: vfC15Op{kind: vfC15Insert, db: 0, set: 0, payload: 1}, dieAfter: -1})
 		b := vfC15NewActor(w, 1, time.Millisecond, vfC15ActorOp{op: vfC15Op{kind: vfC15Update, db: 0, set: 1, payload: 2}, dieAfter: -1})
 		granted := 0
-		_, _, ok := w.runRace([]*vfC15Actor{a, b}, false, func(ready []*vfC15Actor) *vfC15Actor {
+		_, _, ok := w.runRace([]*vfC15Actor{a, b}, func(ready []*vfC15Actor) *vfC15Actor {
 			granted++
 			if granted == 1 {
 				return b // b reads the (empty) registry
@@ -742,34 +795,43 @@ func TestVerif_C15_Regress(t *testing.T) {
 		}
 		still := a.res[0].res.outcome == vfC15Ack && absentAfter(w, "db0")
 		rec.Case("race: B.Update(db0) reads registry; A.Insert(db0) completes; B continues", true, fmt.Sprintf("reproduces=%v", still))
-		if still && kit.Known("C15", vfC15SigSameDBCreate) {
-			kit.KnownFinding("C15", vfC15SigSameDBCreate, "an acknowledged creation of db0 is deleted by a concurrent change of db0 that started from an older registry read")
-		}
+		vfC15RegressReport(vfC15SigSameDBCreate, still, "an acknowledged creation of db0 is deleted by a concurrent change of db0 that started from an older registry read")
 	}()
 
-	// 3. in-flight create overtaken by a node whose wait expired
+	// 3. delete finalisation removes a database that was re-created meanwhile (no crash, no expired wait)
 	func() {
 		w, err := vfC15NewWorld(t, "Regress", ctx, 2, vfC15MenuQuick)
 		if err != nil {
 			t.Fatalf("harness: %v", err)
 		}
 		defer w.Close()
-		a := vfC15NewActor(w, 0, 1, vfC15ActorOp{op: vfC15Op{kind: vfC15Insert, db: 0, set: 0, payload: 1}, dieAfter: -1})
-		b := vfC15NewActor(w, 1, 1, vfC15ActorOp{load: true, dieAfter: -1})
-		_, _, ok := w.runRace([]*vfC15Actor{a, b}, false, func(ready []*vfC15Actor) *vfC15Actor {
-			if a.node.conn.mut < 1 {
-				return a // until a's registry write has been applied
+		n0 := w.NewNode()
+		n0.conn.arm(-1)
+		r0 := w.exec(n0, vfC15Op{kind: vfC15Insert, db: 0, set: 0, payload: 1})
+		a := vfC15NewActor(w, 0, time.Millisecond, vfC15ActorOp{op: vfC15Op{kind: vfC15Delete, db: 0}, dieAfter: -1})
+		b := vfC15NewActor(w, 1, time.Millisecond, vfC15ActorOp{op: vfC15Op{kind: vfC15Insert, db: 0, set: 1, payload: 2}, dieAfter: -1})
+		sched, _, ok := w.runRace([]*vfC15Actor{a, b}, func(ready []*vfC15Actor) *vfC15Actor {
+			if a.node.conn.mut < 2 {
+				return a // until a has marked the registry and deleted the config document
 			}
-			return b // then b loads (and rolls the registry back); a finishes afterwards
+			return b // then b re-creates db0 completely; a's finalising step runs afterwards
 		})
 		if !ok {
 			rec.Inconclusive()
 			return
 		}
-		still := a.res[0].res.outcome == vfC15Ack && absentAfter(w, "db0")
-		rec.Case("race: A.Insert(db0) writes registry; B.Load with expired wait; A writes config", true, fmt.Sprintf("reproduces=%v", still))
-		if still && kit.Known("C15", vfC15SigOvertaken) {
-			kit.KnownFinding("C15", vfC15SigOvertaken, "an acknowledged creation of db0 is not in the registry: another node rolled the in-flight creation back while its author was alive")
-		}
+		still := r0.outcome == vfC15Ack && a.res[0].res.outcome == vfC15Ack && b.res[0].res.outcome == vfC15Ack && absentAfter(w, "db0")
+		rec.Case("race: A.Delete(db0) marks registry and deletes config; B.Insert(db0) completes; A finalises", true, fmt.Sprintf("reproduces=%v", still))
+		vfC15RegressReport(vfC15SigDeleteFinalize, still, "B's acknowledged re-creation of db0 is gone after A's delete finalisation: ["+strings.Join(sched, " ")+"]")
 	}()
+}
+
+// vfC15RegressReport: KNOWN-FINDING while a listed shape still reproduces; a note once it no longer does.
+func vfC15RegressReport(sig string, still bool, what string) {
+	switch {
+	case still && kit.Known("C15", sig):
+		kit.KnownFinding("C15", sig, what)
+	case !still:
+		kit.Note("C15", "regress: %s no longer fails", sig)
+	}
 }
